@@ -11,8 +11,8 @@ def correspond(ctx):
     ctx.extra["rule"] = ("random multigraphs n<=6 and grids (with (y,x) roots), k in 1..4, label expressions as IntVars / literals / "
                          "compound, roots lists with None holes, allow_empty_group on/off, both routes; emitted program of the real "
                          "division_connected / _division_connected vs the Lean model (constraint multiset)")
-    graphcorr.run_cases(ctx, graphcorr.case_divconn, ctx.n(400, 5000), "divconn")
-    graphcorr.run_cases(ctx, graphcorr.case_divconn_prim, ctx.n(200, 2500), "divconn_prim")
+    graphcorr.run_cases(ctx, graphcorr.case_divconn, ctx.n(400, 5000), "divconn", bigs=graphcorr.graph_bigs() + graphcorr.grid_bigs())
+    graphcorr.run_cases(ctx, graphcorr.case_divconn_prim, ctx.n(200, 2500), "divconn_prim", bigs=graphcorr.graph_bigs("large"))
     if not ctx.quick():
         for f in search(ctx, None, budget=30):
             ctx.disagree("semantic", what=f.what, data=f.data)
@@ -72,9 +72,107 @@ def _check_grid(h, w, k, roots, allow_empty):
     return None
 
 
+def block_labelings(n, edges, k):
+    """[(name, labels)] for a medium / large graph: contiguous index blocks (normally connected), a class split in two far-apart
+    pieces, labels rotated (so that given roots carry the wrong label), one class empty, a single vertex relabelled at either end."""
+    cut = [round(n * j / k) for j in range(k + 1)]
+    blocks = [max(c for c in range(k) if cut[c] <= v) for v in range(n)]
+    out = [("index-blocks", blocks), ("index-blocks-reversed", [k - 1 - b for b in blocks]),
+           ("rotated", [(b + 1) % k for b in blocks])]
+    split = list(blocks)
+    for v in range(n - max(2, n // 10), n):
+        split[v] = 0                      # class 0 gets a second piece at the top of the index range
+    out.append(("class-0-in-two-pieces", split))
+    if k >= 2:
+        out.append(("class-k-1-empty", [min(b, k - 2) for b in blocks]))
+    one = list(blocks)
+    one[n - 1] = 0
+    out.append(("last-vertex-relabelled-0", one))
+    one = list(blocks)
+    one[0] = k - 1
+    out.append(("first-vertex-relabelled-k-1", one))
+    out.append(("all-0", [0] * n))
+    return out
+
+
+def _check_labelings(n, edges, k, roots, allow_empty, as_list, labelings, grid=None):
+    """Selected labelings of a medium / large instance (aux route; graph form, or the IntArray2D form with (y, x) roots)."""
+    from cspuz import graph as G
+    from cspuz.array import IntArray1D
+
+    def builder(s):
+        if grid:
+            arr = s.int_array(grid, 0, k - 1)
+            r2 = None if roots is None else [None if r is None else (r // grid[1], r % grid[1]) for r in roots]
+            return lambda: G.division_connected(s, arr, k, roots=r2, allow_empty_group=allow_empty)
+        vs = [s.int_var(0, k - 1) for _ in range(n)]
+        dv = vs if as_list else IntArray1D(vs)
+        return lambda: G.division_connected(s, dv, k, mk, roots=roots, allow_empty_group=allow_empty)
+    mk = None if grid else graphs.mk_graph(n, edges)
+    decls, cs, base, _ = graphs.real_program(builder)
+    for name, lab in labelings:
+        want = spec(n, edges, k, lab, roots, allow_empty)
+        try:
+            got = exprio.solve_prog(decls, cs, base, {f"i{i}": lab[i] for i in range(n)}, timeout_ms=BIG_TIMEOUT_MS) is not None
+        except exprio.Unknown:
+            UNDECIDED[0] += 1       # (refuting a spanning forest on a large board is hard for z3: not a verdict)
+            continue
+        if got != want:
+            return name, lab, got, want
+    return None
+
+
+BIG_TIMEOUT_MS = 2500
+UNDECIDED = [0]
+
+
+def _runs(lab):
+    """run-length form of a long labeling (for messages)"""
+    out, i = [], 0
+    while i < len(lab):
+        j = i
+        while j < len(lab) and lab[j] == lab[i]:
+            j += 1
+        out.append("%d x%d" % (lab[i], j - i))
+        i = j
+    return "[" + ", ".join(out) + "]"
+
+
 def search(ctx, why, budget=None):
     found = {}
     rng = ctx.rng
+    # medium and LARGE instances: root vertices with ids >= 257, classes at both ends of the index range
+    bigs = [(n, es, None) for n, es in graphs.big_graphs()] + [(h * w, graphs.grid_edges(h, w), (h, w)) for h, w in graphs.BIG_GRIDS]
+    for idx, (n, edges, grid) in enumerate(bigs):
+        for k in ((2, 3) if n <= 64 else (2 + idx % 2,)):
+            blocks = block_labelings(n, edges, k)
+            lab0 = blocks[0][1]
+            for roots in (None, [None] * (k - 1) + [n - 1], [None if c == 1 else max(v for v in range(n) if lab0[v] == c) - c for c in range(k)]):
+                if n > 64 and roots is None:
+                    continue            # (large boards without roots mostly end undecided; what is special about LARGE is the roots)
+                allow_empty = (idx + k) % 2 == 0
+                as_list = (idx % 2 == 1)
+                key = "big:grid" if grid else "big"
+                if key in found:
+                    continue
+                try:
+                    bad = _check_labelings(n, edges, k, roots, allow_empty, as_list, blocks, grid)
+                except Exception as e:
+                    bad = ("exception", None, core.err_name(e), str(e)[:200])
+                ctx.count("search:" + key)
+                if UNDECIDED[0]:
+                    ctx.count("search:big:undecided-within-%dms" % BIG_TIMEOUT_MS, UNDECIDED[0])
+                    UNDECIDED[0] = 0
+                if bad:
+                    shown = None if roots is None else (roots if not grid else [None if r is None else (r // grid[1], r % grid[1]) for r in roots])
+                    found[key] = Finding(
+                        "divconn:large-" + ("grid" if grid else "graph"),
+                        (f"division_connected on a {grid[0]}x{grid[1]} IntArray2D" if grid else
+                         f"division_connected on a graph with {n} vertices and {len(edges)} edges (edges {edges[:4]} ... {edges[-6:]}, labels as a {'list' if as_list else 'IntArray1D'})")
+                        + f", k={k}, roots={shown}, allow_empty_group={allow_empty}, labels ({bad[0]}) = {_runs(bad[1]) if bad[1] else None}: "
+                        f"satisfiable={bad[2]} expected {bad[3]}",
+                        {"big": True, "n": n, "edges": edges, "bgrid": list(grid) if grid else None, "k": k, "roots": roots,
+                         "allow_empty": allow_empty, "as_list": as_list, "labels": bad[1], "labels_name": bad[0]})
     for (h, w, k, roots) in ((1, 3, 2, [None, (0, 2)]), (2, 2, 3, [None, (0, 0), (1, 1)]), (2, 3, 2, [(1, 2), None]),
                              (2, 2, 2, [None, None]), (3, 1, 3, [(2, 0), None, (0, 0)]), (2, 3, 3, [None, (0, 0), (1, 2)])):
         for allow_empty in (False, True):
@@ -114,13 +212,17 @@ def search(ctx, why, budget=None):
                                 found[key] = Finding(
                                     "divconn:" + key,
                                     f"division_connected(route={key}) n={n} edges={edges} k={k} roots={roots} allow_empty_group={allow_empty} "
-                                    f"labels={bad[0]}: satisfiable={bad[1]} expected {bad[2]}",
+                                    f"labels={bad[0]}: satisfiable={bad[1]} expected {bad[2]}" + graphs.history_note(n, edges),
                                     {"n": n, "edges": edges, "k": k, "roots": roots, "allow_empty": allow_empty, "prim": prim,
                                      "as_list": as_list, "labels": bad[0]})
     return list(found.values())
 
 
 def replay(ctx, data):
+    if data.get("big"):
+        bad = _check_labelings(data["n"], [tuple(e) for e in data["edges"]], data["k"], data["roots"], data["allow_empty"], data["as_list"],
+                               [(data.get("labels_name"), data["labels"])], tuple(data["bgrid"]) if data.get("bgrid") else None)
+        return Finding("divconn:replay", f"still fails: {str(bad)[:300]}", data) if bad else None
     if "grid" in data:
         roots = None if data["roots"] is None else [None if r is None else tuple(r) for r in data["roots"]]
         bad = _check_grid(data["grid"][0], data["grid"][1], data["k"], roots, data["allow_empty"])
